@@ -666,3 +666,33 @@ Proof.
   { apply (pmax_list_ge ((p ++ [fresh_child t p]) ++ k)). apply in_or_app. left. apply in_or_app. right. left. reflexivity. }
   unfold fresh_child in Hc at 1. unfold pmax_list in E. lia.
 Qed.
+
+(* ---------- the staging phase establishes "targets pairwise distinct" ---------- *)
+(* installTrueTypeCollectionMembers reserves the SANITISED name (the file name the member is staged and committed
+   under) before writing it: whatever fails, a staging phase that returns nil hands commitCollectionFonts a list
+   of pairwise distinct names, one per member, and that happens exactly when stage_decide accepts *)
+Lemma stage_members_distinct pl freshn kp (G : list positive) ms : forall seen w names w',
+  NoDup seen ->
+  stage_members pl freshn kp G ms seen w = (None, names, w') ->
+  NoDup names /\ names = rev seen ++ flat_map member_target ms /\ forall k, stage_decide ms seen k = Accept.
+Proof.
+  induction ms as [|m ms IH]; intros seen w names w' Hnd H; cbn [stage_members] in H.
+  - injection H as <- <-. split; [apply NoDup_ListNoDup, List.NoDup_rev, NoDup_ListNoDup; exact Hnd|]. split; [cbn; rewrite app_nil_r; reflexivity|reflexivity].
+  - destruct m as [raw n data|]; [|discriminate].
+    destruct (bool_decide (n ∈ seen)) eqn:Eb; [discriminate|]. apply bool_decide_eq_false in Eb.
+    destruct (write_gob pl freshn kp G n data w) as [[[e|] pub] w1]; [discriminate|].
+    destruct (IH (n :: seen) w1 names w') as (I1 & I2 & I3).
+    + apply NoDup_cons. split; assumption.
+    + exact H.
+    + split; [exact I1|]. split.
+      * rewrite I2. cbn. rewrite <- app_assoc. reflexivity.
+      * intros k. cbn [stage_decide]. rewrite bool_decide_eq_false_2 by exact Eb. apply I3.
+Qed.
+
+(* a rejected collection never reaches the commit: stage_decide <> Accept => the staging phase returns an error *)
+Lemma stage_reject_is_error pl freshn kp (G : list positive) ms w :
+  stage_decide ms [] 0 <> Accept -> fst (fst (stage_members pl freshn kp G ms [] w)) <> None.
+Proof.
+  intros Hd He. destruct (stage_members pl freshn kp G ms [] w) as [[e names] w'] eqn:E. cbn in He. subst e.
+  destruct (stage_members_distinct pl freshn kp G ms [] w names w' (NoDup_nil_2) E) as (_ & _ & Ha). exact (Hd (Ha 0)).
+Qed.
